@@ -172,3 +172,56 @@ Qed.
 
 Theorem quote_faithful v : go_unquote (quote v) = Some v.
 Proof. unfold go_unquote, quote. apply unquote_quote_body. Qed.
+
+(** * The old-enum-conflicts arm *)
+Lemma map_pair_combine {A B C} (f : A * B -> C) : forall (a : list A) (b : list B),
+  map (fun kv => (f kv, snd kv)) (combine a b) = combine (map f (combine a b)) b.
+Proof. induction a as [|x a IH]; intros [|y b]; simpl; try reflexivity. f_equal. apply IH. Qed.
+
+Lemma combine_length_eq {A B} : forall (a : list A) (b : list B), List.length a = List.length b -> List.length (combine a b) = List.length b.
+Proof. intros a b H. rewrite combine_length, H. apply Nat.min_id. Qed.
+
+(** Under the guard (distinct stage-2 keys, distinct final names) every value keeps exactly one constant. *)
+Theorem enum_old_complete norm pathname names values :
+  List.length names = List.length values -> NoDup names ->
+  let keys := stage2_keys norm [] names in
+  let finals := map (fun kv => pathname (old_key kv)) (combine keys values) in
+  NoDup keys -> NoDup finals ->
+  enum_constants_old norm pathname names values = combine finals values.
+Proof.
+  intros Hlen Hnd keys finals Hk Hf. unfold enum_constants_old.
+  rewrite stage1_nodup.
+  2: { intros n _ []. }
+  2: { rewrite map_fst_combine by exact Hlen. exact Hnd. }
+  unfold stage2. rewrite map_fst_combine, map_snd_combine by exact Hlen.
+  assert (Hkl : List.length keys = List.length values) by (unfold keys; rewrite stage2_keys_length; exact Hlen).
+  fold keys. rewrite build_nodup by (rewrite map_fst_combine by exact Hkl; exact Hk).
+  unfold stage3_old. rewrite (map_pair_combine (fun kv => pathname (old_key kv))). fold finals.
+  apply build_nodup. rewrite map_fst_combine; [exact Hf|].
+  unfold finals. rewrite map_length. apply combine_length_eq. exact Hkl.
+Qed.
+
+Corollary enum_old_values_preserved norm pathname names values :
+  List.length names = List.length values -> NoDup names ->
+  NoDup (stage2_keys norm [] names) ->
+  NoDup (map (fun kv => pathname (old_key kv)) (combine (stage2_keys norm [] names) values)) ->
+  map snd (enum_constants_old norm pathname names values) = values.
+Proof.
+  intros Hlen Hnd Hk Hf. rewrite (enum_old_complete norm pathname names values Hlen Hnd Hk Hf).
+  apply map_snd_combine. rewrite map_length. apply combine_length_eq. rewrite stage2_keys_length. exact Hlen.
+Qed.
+
+Theorem enum_old_names_distinct norm pathname names values :
+  NoDup (map fst (enum_constants_old norm pathname names values)).
+Proof. unfold enum_constants_old, stage3_old. apply build_keys_nodup. Qed.
+
+(** The guard fails on the unchanged code for [empty; ""]: the earlier stages give the empty value the key Empty1,
+    the arm forces Empty, the two entries meet and one value is lost (which one depends on the order in which the
+    stage-2 map is iterated). *)
+Theorem old_conflicts_empty_refuted :
+  let norm := table [("empty", "Empty"); ("", "Empty")] in
+  let pathname := fun k => ("Color" ++ k)%string in
+  stage2 norm (stage1 [] (combine ["empty"; ""] ["empty"; ""])) = [("Empty", "empty"); ("Empty1", "")] /\
+  stage3_old pathname [("Empty", "empty"); ("Empty1", "")] = [("ColorEmpty", "")] /\
+  stage3_old pathname [("Empty1", ""); ("Empty", "empty")] = [("ColorEmpty", "empty")].
+Proof. vm_compute. repeat split; reflexivity. Qed.
